@@ -23,14 +23,18 @@ Flags: decimal ValueFlags word (1 = stringNonVerbatim, 2 = stringNonCanonical).
   wire trimb c h               → "hex"                        TrimSuffixByte (c decimal)
   wire valid u d h             → "ok" | "E class off"         Value.IsValid framing: ws value ws, u = AllowInvalidUTF8, d = AllowDuplicateNames
   wire stream u d h            → "count class off"            ReadValue loop: values read, then ioeof at a boundary or the first error
+  wire tokens u d h            → "count class off"            ReadToken loop (Model/TokenLoop.lean): completed top-level values, then ioeof or the first error
+                                 (additional classes: nonstring = ErrNonStringName, missing = errMissingValue, badns = errInvalidNamespace)
   wire value u d depth h       → "n class"                    decoderState.consumeValue at the given depth on h (h non-empty)
   wire all h                   → the replies of  ws | lit | sstr | str 0 | str 1 | snum | num | unq |
-                                 valid 0 0 | valid 0 1 | valid 1 0 | valid 1 1 | stream 0 0 | stream 0 1 | stream 1 0 | stream 1 1
+                                 valid 0 0 | valid 0 1 | valid 1 0 | valid 1 1 | stream 0 0 | stream 0 1 | stream 1 0 | stream 1 1 |
+                                 tokens 0 0 | tokens 0 1 | tokens 1 0 | tokens 1 1
                                  joined by " | " (one line per input for the bounded-exhaustive sweeps)
-  wire vs h                    → the eight valid/stream replies of `all` only
+  wire vs h                    → the twelve valid/stream/tokens replies of `all` only
 -/
 import JsonV.Oracle.Util
 import JsonV.Model.Validate
+import JsonV.Model.TokenLoop
 
 namespace JsonV.Oracle.Wire
 open JsonV JsonV.Oracle JsonV.Model.Wire JsonV.Model.Validate
@@ -39,6 +43,7 @@ def errStr : Err → String
   | .ok => "ok" | .eof => "eof" | .invalidChar => "char" | .invalidEscape => "esc" | .invalidUTF8 => "utf8"
   | .dupName => "dup" | .maxDepth => "depth" | .mismatchDelim => "char" | .ioEOF => "ioeof"
   | .fuel => "fuel" | .bug => "bug"
+  | .nonStringName => "nonstring" | .missingValue => "missing" | .invalidNamespace => "badns"
 
 def b01 (s : String) : Option Bool := if s == "1" then some true else if s == "0" then some false else none
 
@@ -83,6 +88,11 @@ def handleB (op : String) (args : List String) (b : Bytes) : String :=
       let (cnt, off, e) := stream ⟨u, d⟩ b
       s!"{cnt} {errStr e} {off}"
     | _, _ => badArgs
+  | "tokens", [u, d] => match b01 u, b01 d with
+    | some u, some d =>
+      let (cnt, off, e) := JsonV.Model.TokenLoop.tokens ⟨u, d⟩ b
+      s!"{cnt} {errStr e} {off}"
+    | _, _ => badArgs
   | "value", [u, d, depth] => match b01 u, b01 d, depth.toNat? with
     | some u, some d, some depth =>
       let (n, e) := consumeValue ⟨u, d⟩ (fuelFor b) depth b
@@ -93,7 +103,8 @@ def handleB (op : String) (args : List String) (b : Bytes) : String :=
 def allOps : List (String × List String) :=
   [("ws", []), ("lit", []), ("sstr", []), ("str", ["0"]), ("str", ["1"]), ("snum", []), ("num", []), ("unq", []),
    ("valid", ["0", "0"]), ("valid", ["0", "1"]), ("valid", ["1", "0"]), ("valid", ["1", "1"]),
-   ("stream", ["0", "0"]), ("stream", ["0", "1"]), ("stream", ["1", "0"]), ("stream", ["1", "1"])]
+   ("stream", ["0", "0"]), ("stream", ["0", "1"]), ("stream", ["1", "0"]), ("stream", ["1", "1"]),
+   ("tokens", ["0", "0"]), ("tokens", ["0", "1"]), ("tokens", ["1", "0"]), ("tokens", ["1", "1"])]
 
 /-- `vs`: the eight validator ops only (for very large inputs). -/
 def vsOps : List (String × List String) := allOps.drop 8
